@@ -23,6 +23,8 @@ SCRIPTS = [
     (["adex-bad"], 6),
     (["adex-ok"], 3),
     (["adex-bad", "session"], 3),
+    (["session", "addapk"], 6),
+    (["session", "adddex", "session"], 4),
     (["session", "event"], 12),
     (["session", "sysevent", "save"], 10),
     (["session", "session"], 14),
@@ -43,6 +45,16 @@ def _GOOD_DEX():
         with open(os.path.join(core.CORPUS_DIR, "dex", "Test.dex"), "rb") as f:
             _GOOD.append(f.read())
     return _GOOD[0]
+
+
+_APK = []
+
+
+def _GOOD_APK():
+    if not _APK:
+        with open(os.path.join(core.CORPUS_DIR, "apk", "Test-debug.apk"), "rb") as f:
+            _APK.append(f.read())
+    return _APK[0]
 
 
 _DATABASES = []     # every dataset.Database opened by the code under test in this body, this run
@@ -119,6 +131,12 @@ def child_main(script, report):
                     raise err
                 else:
                     report(("info", opidx, "analyzedex-left-no-session", type(err).__name__ if err else "none"))
+            elif op == "addapk":
+                sessions[-1].addAPK("t.apk", _GOOD_APK())
+                report(("ret", opidx, op, None, ""))
+            elif op == "adddex":
+                sessions[-1].addDEX("t.dex", _GOOD_DEX())
+                report(("ret", opidx, op, None, ""))
             elif op == "event":
                 sessions[-1].insert_event("call", "callee", "params", "ret")
                 report(("ret", opidx, op, None, ""))
@@ -254,8 +272,22 @@ class Verdicts:
                 res.probe("session-failed-with-injected-ioerr")
                 return        # I3'(i): the injected error itself
             if "database is locked" in low and (res.faults_fired.get("stall") or res.faults_fired.get("linger")):
-                res.probe("lock-timeout-under-stall-or-linger")
-                return        # I3'(ii)
+                # I3'(ii).  The stall explains the time-out only if the lock holder sat in the window every writer needs
+                # (a successful write, commit pending).  A holder that keeps the write lock after a statement of its own
+                # failed, or across reads, makes the other session fail through the code under test, not through the fault.
+                holders = [q for q in res.procs if q is not p and q.txn_open and q.state not in ("done", "crashed")]
+                needless = [q for q in holders if not q.injected_failure and
+                            (not q.clean_hold or q.pending[0] not in ("commit", "rollback", "close"))]
+                if not needless:
+                    res.probe("lock-timeout-under-stall-or-linger")
+                    return
+                res.probe("lock-timeout-while-holder-kept-the-lock-needlessly")
+                q = needless[0]
+                self.problems.append((f"C36:OperationalError-locked-by-needless-holder:{op}@{kind}:{self.fresh}",
+                                      f"process {p.idx} op {opidx} {op} raised {cls}: {msg}; process {q.idx} held the write lock "
+                                      f"although its last write did not succeed or other statements followed it (last executed: "
+                                      f"{q.last_kind}, next: {q.pending[0]})"))
+                return
             detail = cls
             if "already exists" in low:
                 detail += "-table-exists"
